@@ -285,6 +285,71 @@ def check_result(ctx) -> None:
     ctx.floor('Y4', n, 200, 'result fields')
 
 
+def check_result_entries(ctx) -> None:
+    """Y6: the generator fills a result field's entry from the output declaration whose Name (or, with priority, display_name) equals
+    the field name, over its parameter sources in order (later sources replace earlier ones).  The committed entry must be that:
+    units = the declaration's CurrentUnits text, description = its ToolTipText (prefixed by `<Name>. ` for a display-name match),
+    and an empty entry exactly when no declaration matches."""
+    repo = ctx.repo
+    reg = get_registry(repo)
+    schema = _load(ctx, 'geophires-result.json')
+    table = result_fields(repo)
+    sources = _sources(ctx)
+    by_name: Dict[str, Decl] = {}
+    by_display: Dict[str, Decl] = {}
+    for cn, _cat in sources:
+        for d in reg.class_decls(cn):
+            if d.dict_name != 'OutputParameterDict' or not isinstance(d.name, str):
+                continue
+            key = d.name
+            if d.key_attr is not None and d.key_attr != d.attr:
+                other = reg.find(cn, d.key_attr)
+                key = other.name if other is not None and isinstance(other.name, str) else d.name
+            by_name[key] = d
+    for key, d in by_name.items():
+        dn = d.get('display_name')
+        if isinstance(dn, str) and dn not in ('',) and dn != key:
+            by_display[dn] = d
+    n = 0
+    for cat, fields in table.items():
+        props = schema.get('properties', {}).get(cat, {}).get('properties', {})
+        for fname, _kind in fields:
+            if fname not in props:
+                continue                      # Y4 reports missing fields
+            have = props[fname]
+            d = by_display.get(fname) or by_name.get(fname)
+            key = f'result-entry:{cat}/{fname}'
+            where = 'src/geophires_x_schema_generator/geophires-result.json'
+            n += 1
+            if d is None:
+                ctx.check(have == {}, 'Y6', key, where,
+                          f'the committed entry {str(have)[:80]} describes an output although no output declaration of the generator\'s sources is '
+                          f'named `{fname}`: the generator would emit an empty entry', fact='no matching output: empty entry')
+                continue
+            cu = d.get('CurrentUnits') or d.get('PreferredUnits')
+            want_units = reg.enums.enums.get(cu.enum, {}).get(cu.member) if isinstance(cu, EnumRef) else None
+            if not isinstance(want_units, str):
+                want_units = None
+            tip = d.get('ToolTipText')
+            tip = tip if isinstance(tip, str) else None
+            if fname in by_display and by_display[fname] is d and d.name != fname:
+                want_desc = f'{d.name}. {tip}' if tip else d.name
+            else:
+                want_desc = tip if tip is not None else None
+            problems = []
+            if have == {}:
+                problems.append('entry is empty')
+            else:
+                if have.get('units') != want_units:
+                    problems.append(f'units {have.get("units")!r} != declared {want_units!r}')
+                if want_desc is not None and have.get('description') != want_desc and not isinstance(d.get('ToolTipText'), Unfolded):
+                    problems.append(f'description {str(have.get("description"))[:50]!r} != {want_desc[:50]!r}')
+            ctx.check(not problems, 'Y6', key, where,
+                      f'`{fname}` is filled by the generator from {d.owner}.{d.attr} ({d.where}) but the committed entry differs: '
+                      f'{"; ".join(problems)} - the committed result schema is not the generated one', fact=f'from {d.owner}.{d.attr}')
+    ctx.floor('Y6', n, 200, 'result schema entries')
+
+
 def check_unit_pairing(ctx) -> None:
     """Y5: the unit attribute the schema publishes is the unit the reader converts unit-suffixed inputs into (and in
     which the bounds are therefore enforced)."""
@@ -326,6 +391,7 @@ def check_unit_pairing(ctx) -> None:
 
 
 def run(ctx) -> None:
+    ctx.rule('Y6', 'each committed result-schema entry is what the generator derives from the output declaration named like the field (units, description), empty iff none')
     ctx.rule('Y5', 'the unit attribute published by the generator is the one ConvertUnits converts unit-suffixed inputs into')
     ctx.rule('Y1', 'request schema properties = union of the input parameters registered by the classes the simulator can '
                    'instantiate (none missing, none extra)')
@@ -336,6 +402,7 @@ def run(ctx) -> None:
     check_geophires(ctx)
     check_hip(ctx)
     check_result(ctx)
+    check_result_entries(ctx)
     check_unit_pairing(ctx)
     ctx.exhaustive = True
     ctx.undecided('"committed = generated" is a baseline test (needs the generator to run); here both are tied to what is enforced')
